@@ -53,6 +53,20 @@ Proof.
   - destruct i, j; simpl; try reflexivity. apply IH.
 Qed.
 
+Lemma alookup_aremove {A} (k k' : oid) (l : list (oid * A)) :
+  alookup k' (aremove k l) = if list_N_eqb k' k then None else alookup k' l.
+Proof.
+  induction l as [|[k0 v0] r IH]; simpl.
+  - destruct (list_N_eqb k' k); reflexivity.
+  - destruct (list_N_eqb k k0) eqn:E.
+    + apply list_N_eqb_spec in E. subst k0. rewrite IH. destruct (list_N_eqb k' k); reflexivity.
+    + simpl. destruct (list_N_eqb k' k0) eqn:E0; [|exact IH].
+      apply list_N_eqb_spec in E0. subst k0.
+      destruct (list_N_eqb k' k) eqn:E1; [|reflexivity].
+      apply list_N_eqb_spec in E1. subst k'.
+      assert (list_N_eqb k k = true) by (apply list_N_eqb_spec; reflexivity). congruence.
+Qed.
+
 Lemma list_N_eqb_refl k : list_N_eqb k k = true.
 Proof. apply list_N_eqb_spec. reflexivity. Qed.
 
@@ -78,36 +92,77 @@ Definition Names (st : state) : Prop :=
   forall j s k o, nth_error (st_stores st) j = Some s -> alookup k (s_objs s) = Some o ->
     named_ok (s_alg s) k (o_bytes o).
 
-(* local class => mode 0o444, except for the ids [ks] of store [si] that an add in progress has
-   copied and not yet protected *)
-Definition Modes (st : state) (si : nat) (ks : list oid) : Prop :=
-  forall j s k o, nth_error (st_stores st) j = Some s -> alookup k (s_objs s) = Some o ->
-    s_cls s = Local -> o_mode o = mode_ro \/ (j = si /\ In k ks).
+(* leftovers: a set of (store position, oid) pairs that are allowed to be unprotected - what sat
+   unprotected in a directory when it was reopened under the local class and has not been added
+   or covered since *)
+Definition lset := nat -> oid -> Prop.
+Definition lempty : lset := fun _ _ => False.
 
+(* local class => mode 0o444, except for the leftovers [E] - minus the ids [done] of store [si]
+   that the add in progress has already protected - and for the ids [ks] of store [si] that it has
+   copied and not yet protected *)
+Definition M (E : lset) (st : state) (si : nat) (done ks : list oid) : Prop :=
+  forall j s k o, nth_error (st_stores st) j = Some s -> alookup k (s_objs s) = Some o ->
+    s_cls s = Local ->
+    o_mode o = mode_ro \/ (E j k /\ ~ (j = si /\ In k done)) \/ (j = si /\ In k ks).
+
+(* the invariant with leftovers *)
+Definition InvE (E : lset) (st : state) : Prop :=
+  forall j s k o, nth_error (st_stores st) j = Some s -> alookup k (s_objs s) = Some o ->
+    named_ok (s_alg s) k (o_bytes o) /\ (s_cls s = Local -> o_mode o = mode_ro \/ E j k).
+(* ... and without: every object named by its digest, every local-class object read-only *)
 Definition Inv (st : state) : Prop :=
   forall j s k o, nth_error (st_stores st) j = Some s -> alookup k (s_objs s) = Some o ->
     named_ok (s_alg s) k (o_bytes o) /\ (s_cls s = Local -> o_mode o = mode_ro).
 
-Lemma Inv_split st : Inv st <-> Names st /\ Modes st O [].
+Lemma Inv_InvE st : Inv st <-> InvE lempty st.
+Proof.
+  split; intros HI j s k o Hs Ho; destruct (HI j s k o Hs Ho) as [A B]; (split; [exact A|]); intros Hc.
+  - left. now apply B.
+  - destruct (B Hc) as [?|[]]. assumption.
+Qed.
+
+Lemma InvE_split E st : InvE E st <-> Names st /\ M E st O [] [].
 Proof.
   split.
   - intros HI. split; intros j s k o Hs Ho.
     + apply (HI j s k o Hs Ho).
-    + intros Hc. left. apply (HI j s k o Hs Ho). exact Hc.
+    + intros Hc. destruct (HI j s k o Hs Ho) as [_ B]. destruct (B Hc) as [?|?]; [now left|].
+      right. left. split; [assumption|]. intros [_ []].
   - intros [HN HM] j s k o Hs Ho. split.
     + apply (HN j s k o Hs Ho).
-    + intros Hc. destruct (HM j s k o Hs Ho Hc) as [?|[_ []]]. assumption.
+    + intros Hc. destruct (HM j s k o Hs Ho Hc) as [?|[[? _]|[_ []]]]; auto.
 Qed.
 
-Lemma Modes_nil_any st si sj : Modes st si [] -> Modes st sj [].
+Lemma InvE_weaken (E E' : lset) st : (forall j k, E j k -> E' j k) -> InvE E st -> InvE E' st.
 Proof.
-  intros HM j s k o Hs Ho Hc. destruct (HM j s k o Hs Ho Hc) as [?|[_ []]]. now left.
+  intros Hi HI j s k o Hs Ho. destruct (HI j s k o Hs Ho) as [A B]. split; [exact A|].
+  intros Hc. destruct (B Hc); auto.
 Qed.
 
-Lemma Modes_weaken st si ks ks' : incl ks ks' -> Modes st si ks -> Modes st si ks'.
+Lemma M_nil_any E st si sj : M E st si [] [] -> M E st sj [] [].
 Proof.
-  intros Hi HM j s k o Hs Ho Hc. destruct (HM j s k o Hs Ho Hc) as [?|[? ?]]; [now left|].
-  right. split; [assumption|]. now apply Hi.
+  intros HM j s k o Hs Ho Hc. destruct (HM j s k o Hs Ho Hc) as [?|[[? _]|[_ []]]]; [now left|].
+  right. left. split; [assumption|]. intros [_ []].
+Qed.
+
+Lemma M_pending E st si ks : M E st si [] [] -> M E st si [] ks.
+Proof.
+  intros HM j s k o Hs Ho Hc. destruct (HM j s k o Hs Ho Hc) as [?|[?|[_ []]]]; auto.
+Qed.
+
+(* when the add is over: the leftovers have shrunk by what was added *)
+Lemma M_done E st si done :
+  M E st si done [] -> M (fun j k => E j k /\ ~ (j = si /\ In k done)) st O [] [].
+Proof.
+  intros HM j s k o Hs Ho Hc. destruct (HM j s k o Hs Ho Hc) as [?|[[A B]|[_ []]]]; [now left|].
+  right. left. split; [now split|]. intros [_ []].
+Qed.
+
+Lemma M_weaken (E E' : lset) st : (forall j k, E j k -> E' j k) -> M E st O [] [] -> M E' st O [] [].
+Proof.
+  intros Hi HM j s k o Hs Ho Hc. destruct (HM j s k o Hs Ho Hc) as [?|[[A B]|[_ []]]]; [now left|].
+  right. left. split; [now apply Hi|exact B].
 Qed.
 
 (* the algorithm of the store at position [si], if there is one *)
@@ -137,14 +192,14 @@ Proof.
   injection Ho as <-. rewrite chmod_obj_bytes. simpl. apply (HN j s0 k o0 E E0).
 Qed.
 
-Lemma chmod_all_Modes i st si ks : Modes st si ks -> Modes (chmod_all i mode_ro st) si ks.
+Lemma chmod_all_M E i st si dn ks : M E st si dn ks -> M E (chmod_all i mode_ro st) si dn ks.
 Proof.
   intros HM j s k o Hs Ho Hc. rewrite chmod_all_nth in Hs.
-  destruct (nth_error (st_stores st) j) as [s0|] eqn:E; [|discriminate].
+  destruct (nth_error (st_stores st) j) as [s0|] eqn:E0; [|discriminate].
   injection Hs as <-. rewrite chmod_store_lookup in Ho.
-  destruct (alookup k (s_objs s0)) as [o0|] eqn:E0; [|discriminate].
+  destruct (alookup k (s_objs s0)) as [o0|] eqn:E1; [|discriminate].
   injection Ho as <-. simpl in Hc.
-  destruct (HM j s0 k o0 E E0 Hc) as [Hm|Hr]; [|now right].
+  destruct (HM j s0 k o0 E0 E1 Hc) as [Hm|Hr]; [|now right].
   left. unfold chmod_obj. destruct (o_ino o0 =? i); simpl; [reflexivity|exact Hm].
 Qed.
 
@@ -165,28 +220,45 @@ Proof.
   destruct (alookup k (s_objs s)); [now apply chmod_all_Names|exact HN].
 Qed.
 
-Lemma protect_one_Modes st si k ks : Modes st si (k :: ks) -> Modes (protect_one st si k) si ks.
+(* protecting id k of store si: it moves from "pending / leftover" to "done" *)
+Lemma protect_one_M E st si k dn ks : M E st si dn (k :: ks) -> M E (protect_one st si k) si (k :: dn) ks.
 Proof.
-  intros HM. unfold protect_one. rewrite get_store_nth.
+  intros HM.
+  (* what is known about an object that is not (si, k) *)
+  assert (Hother : forall j s' k' o, nth_error (st_stores st) j = Some s' ->
+            alookup k' (s_objs s') = Some o -> s_cls s' = Local -> ~ (j = si /\ k' = k) ->
+            o_mode o = mode_ro \/ (E j k' /\ ~ (j = si /\ In k' (k :: dn))) \/ (j = si /\ In k' ks)).
+  { intros j s' k' o Hs Ho Hc Hne. destruct (HM j s' k' o Hs Ho Hc) as [?|[[A B]|[-> [<-|Hin]]]].
+    - now left.
+    - right. left. split; [exact A|]. intros [-> [<-|Hin]]; [now apply Hne|now apply B].
+    - exfalso. now apply Hne.
+    - right. right. now split. }
+  unfold protect_one. rewrite get_store_nth.
   destruct (nth_error (st_stores st) si) as [s|] eqn:Es.
-  2:{ intros j s' k' o Hs Ho Hc. destruct (HM j s' k' o Hs Ho Hc) as [?|[-> _]]; [now left|congruence]. }
+  2:{ intros j s' k' o Hs Ho Hc. apply (Hother j s' k' o Hs Ho Hc). intros [-> _]. congruence. }
   destruct (s_cls s) eqn:Ec.
-  2:{ intros j s' k' o Hs Ho Hc. destruct (HM j s' k' o Hs Ho Hc) as [?|[-> _]]; [now left|].
+  2:{ intros j s' k' o Hs Ho Hc. apply (Hother j s' k' o Hs Ho Hc). intros [-> _].
       rewrite Es in Hs. injection Hs as <-. congruence. }
   destruct (alookup k (s_objs s)) as [o0|] eqn:Eo.
   - intros j s' k' o Hs Ho Hc. rewrite chmod_all_nth in Hs.
-    destruct (nth_error (st_stores st) j) as [s0|] eqn:E; [|discriminate].
+    destruct (nth_error (st_stores st) j) as [s0|] eqn:E0; [|discriminate].
     injection Hs as <-. rewrite chmod_store_lookup in Ho.
     destruct (alookup k' (s_objs s0)) as [o1|] eqn:E1; [|discriminate].
     injection Ho as <-. simpl in Hc.
-    destruct (HM j s0 k' o1 E E1 Hc) as [Hm|[-> [<-|Hin]]].
-    + left. unfold chmod_obj. destruct (o_ino o1 =? o_ino o0); simpl; [reflexivity|exact Hm].
-    + left. rewrite Es in E. injection E as <-. rewrite Eo in E1. injection E1 as <-.
-      unfold chmod_obj. rewrite N.eqb_refl. reflexivity.
-    + right. now split.
-  - intros j s' k' o Hs Ho Hc. destruct (HM j s' k' o Hs Ho Hc) as [?|[-> [<-|Hin]]]; [now left| |].
-    + rewrite Es in Hs. injection Hs as <-. congruence.
-    + right. now split.
+    destruct (Nat.eq_dec j si) as [->|Hj].
+    + destruct (list_N_eqb k' k) eqn:Ek.
+      * apply list_N_eqb_spec in Ek. subst k'. left.
+        rewrite Es in E0. injection E0 as <-. rewrite Eo in E1. injection E1 as <-.
+        unfold chmod_obj. rewrite N.eqb_refl. reflexivity.
+      * assert (Hne : ~ (si = si /\ k' = k)).
+        { intros [_ ->]. rewrite list_N_eqb_refl in Ek. discriminate. }
+        destruct (Hother si s0 k' o1 E0 E1 Hc Hne) as [Hm|Hr]; [|now right].
+        left. unfold chmod_obj. destruct (o_ino o1 =? o_ino o0); simpl; [reflexivity|exact Hm].
+    + assert (Hne : ~ (j = si /\ k' = k)) by (intros [? _]; contradiction).
+      destruct (Hother j s0 k' o1 E0 E1 Hc Hne) as [Hm|Hr]; [|now right].
+      left. unfold chmod_obj. destruct (o_ino o1 =? o_ino o0); simpl; [reflexivity|exact Hm].
+  - intros j s' k' o Hs Ho Hc. apply (Hother j s' k' o Hs Ho Hc). intros [-> ->].
+    rewrite Es in Hs. injection Hs as <-. congruence.
 Qed.
 
 (* put: a new or replaced entry in store si *)
@@ -221,39 +293,95 @@ Proof.
   - apply (HN j s k' o' Hs Ho).
 Qed.
 
-Lemma put_obj_Modes st si k o nx ks :
-  In k ks -> Modes st si ks -> Modes (put_obj st si k o nx) si ks.
+Lemma put_obj_M E st si k o nx dn ks :
+  In k ks -> M E st si dn ks -> M E (put_obj st si k o nx) si dn ks.
 Proof.
   intros Hin HM j s k' o' Hs Ho Hc. unfold put_obj in Hs. simpl in Hs. rewrite nth_error_upd_nth in Hs.
   destruct (Nat.eqb j si) eqn:Ej.
   - apply Nat.eqb_eq in Ej. subst j.
-    destruct (nth_error (st_stores st) si) as [s0|] eqn:E; [|discriminate].
+    destruct (nth_error (st_stores st) si) as [s0|] eqn:E0; [|discriminate].
     simpl in Hs. injection Hs as <-. simpl in Ho, Hc. rewrite alookup_aput in Ho.
     destruct (list_N_eqb k' k) eqn:Ek.
-    + apply list_N_eqb_spec in Ek. subst k'. right. now split.
-    + apply (HM si s0 k' o' E Ho Hc).
+    + apply list_N_eqb_spec in Ek. subst k'. right. right. now split.
+    + apply (HM si s0 k' o' E0 Ho Hc).
   - apply (HM j s k' o' Hs Ho Hc).
 Qed.
 
-Lemma store_has_false_or st si k : store_has st si k = true \/ store_has st si k = false.
-Proof. destruct (store_has st si k); auto. Qed.
+(* removal of a name *)
+Lemma del_obj_alg st si k j : alg_at (del_obj st si k) j = alg_at st j.
+Proof.
+  unfold alg_at, del_obj. simpl. rewrite nth_error_upd_nth.
+  destruct (Nat.eqb j si); [|reflexivity]. destruct (nth_error _ j); reflexivity.
+Qed.
+
+Lemma del_obj_sub st si k j s k' o :
+  nth_error (st_stores (del_obj st si k)) j = Some s -> alookup k' (s_objs s) = Some o ->
+  exists s0, nth_error (st_stores st) j = Some s0 /\ alookup k' (s_objs s0) = Some o /\
+             s_alg s0 = s_alg s /\ s_cls s0 = s_cls s.
+Proof.
+  unfold del_obj. simpl. rewrite nth_error_upd_nth. intros Hs Ho.
+  destruct (Nat.eqb j si).
+  - destruct (nth_error (st_stores st) j) as [s0|]; [|discriminate]. simpl in Hs. injection Hs as <-.
+    simpl in Ho. rewrite alookup_aremove in Ho. destruct (list_N_eqb k' k); [discriminate|].
+    exists s0. auto.
+  - exists s. auto.
+Qed.
+
+Lemma del_obj_Names st si k : Names st -> Names (del_obj st si k).
+Proof.
+  intros HN j s k' o Hs Ho. destruct (del_obj_sub _ _ _ _ _ _ _ Hs Ho) as (s0 & A & B & C & _).
+  rewrite <- C. apply (HN j s0 k' o A B).
+Qed.
+
+Lemma del_obj_M E st si k sj dn ks : M E st sj dn ks -> M E (del_obj st si k) sj dn ks.
+Proof.
+  intros HM j s k' o Hs Ho Hc. destruct (del_obj_sub _ _ _ _ _ _ _ Hs Ho) as (s0 & A & B & _ & D).
+  apply (HM j s0 k' o A B). congruence.
+Qed.
+
+(* LocalHashFileDB.check during a status query *)
+Lemma check_obj_ok E st si k :
+  Names st -> M E st O [] [] ->
+  Names (check_obj H st si k) /\ M E (check_obj H st si k) O [] [] /\
+  forall j, alg_at (check_obj H st si k) j = alg_at st j.
+Proof.
+  intros HN HM. unfold check_obj.
+  destruct (get_store st si) as [s|]; [|auto].
+  destruct (s_cls s); [|auto].
+  destruct (alookup k (s_objs s)) as [o|]; [|auto].
+  destruct (o_mode o =? mode_ro); [auto|].
+  destruct (list_N_eqb _ _).
+  - split; [now apply chmod_all_Names|]. split; [now apply chmod_all_M|]. intros j. apply chmod_all_alg.
+  - split; [now apply del_obj_Names|]. split; [now apply del_obj_M|]. intros j. apply del_obj_alg.
+Qed.
+
+Lemma check_all_ok E st si ks :
+  Names st -> M E st O [] [] ->
+  Names (check_all H st si ks) /\ M E (check_all H st si ks) O [] [] /\
+  forall j, alg_at (check_all H st si ks) j = alg_at st j.
+Proof.
+  unfold check_all. revert st. induction ks as [|k r IH]; intros st HN HM; simpl; [auto|].
+  destruct (check_obj_ok E st si k HN HM) as (A & B & C).
+  destruct (IH _ A B) as (A' & B' & C'). split; [exact A'|]. split; [exact B'|].
+  intros j. rewrite C'. apply C.
+Qed.
 
 (* ------------------------------------------------------------------ add *)
 Definition item_ok (st : state) (si : nat) (k : oid) (b : list N) : Prop :=
   forall a, alg_at st si = Some a -> named_ok a k b.
 
-Lemma protect_fold st si (ks : list oid) :
-  Names st -> Modes st si ks ->
+Lemma protect_fold E st si (ks dn : list oid) :
+  Names st -> M E st si dn ks ->
   Names (fold_left (fun s k => protect_one s si k) ks st) /\
-  Modes (fold_left (fun s k => protect_one s si k) ks st) si [] /\
+  M E (fold_left (fun s k => protect_one s si k) ks st) si (rev ks ++ dn) [] /\
   forall j, alg_at (fold_left (fun s k => protect_one s si k) ks st) j = alg_at st j.
 Proof.
-  revert st. induction ks as [|k r IH]; intros st HN HM; simpl.
+  revert st dn. induction ks as [|k r IH]; intros st dn HN HM; simpl.
   - auto.
-  - destruct (IH (protect_one st si k)) as (A & B & C).
+  - destruct (IH (protect_one st si k) (k :: dn)) as (A & B & C).
     + now apply protect_one_Names.
-    + now apply protect_one_Modes.
-    + split; [exact A|]. split; [exact B|]. intros j. rewrite C. apply protect_one_alg.
+    + now apply protect_one_M.
+    + split; [exact A|]. split; [now rewrite <- app_assoc|]. intros j. rewrite C. apply protect_one_alg.
 Qed.
 
 Lemma fold_protect_map {A} (f : A -> oid) st si (items : list A) :
@@ -261,10 +389,21 @@ Lemma fold_protect_map {A} (f : A -> oid) st si (items : list A) :
   fold_left (fun s k => protect_one s si k) (map f items) st.
 Proof. revert st. induction items; intros; simpl; auto. Qed.
 
-Lemma add_copy_ok st si items ce :
+(* the leftovers once the ids [ks] of store [si] have been added or covered *)
+Definition lminus (E : lset) (si : nat) (ks : list oid) : lset :=
+  fun j k => E j k /\ ~ (j = si /\ In k ks).
+
+Lemma M_done_lminus E st si ks : M E st si (rev ks ++ []) [] -> M (lminus E si ks) st O [] [].
+Proof.
+  intros HM. apply M_done in HM. eapply M_weaken; [|exact HM].
+  intros j k [A B]. split; [exact A|]. intros [-> Hin]. apply B. split; [reflexivity|].
+  rewrite app_nil_r. now apply in_rev in Hin.
+Qed.
+
+Lemma add_copy_ok E st si items ce :
   (forall it, In it items -> item_ok st si (fst it) (snd it)) ->
-  Names st -> Modes st si [] ->
-  Names (add_copy st si items ce) /\ Modes (add_copy st si items ce) si [] /\
+  Names st -> M E st O [] [] ->
+  Names (add_copy st si items ce) /\ M (lminus E si (map fst items)) (add_copy st si items ce) O [] [] /\
   forall j, alg_at (add_copy st si items ce) j = alg_at st j.
 Proof.
   intros Hit HN HM. unfold add_copy.
@@ -274,9 +413,9 @@ Proof.
   clearbody to_add.
   assert (Hgen : forall l st0, incl l items ->
             (forall j, alg_at st0 j = alg_at st j) ->
-            Names st0 -> Modes st0 si (map fst items) ->
+            Names st0 -> M E st0 si [] (map fst items) ->
             let st1 := fold_left (fun s it => put_new s si (fst it) (snd it)) l st0 in
-            Names st1 /\ Modes st1 si (map fst items) /\ forall j, alg_at st1 j = alg_at st j).
+            Names st1 /\ M E st1 si [] (map fst items) /\ forall j, alg_at st1 j = alg_at st j).
   { induction l as [|it r IH]; intros st0 Hl Ha HN0 HM0; simpl.
     - auto.
     - apply IH.
@@ -284,19 +423,19 @@ Proof.
       + intros j. rewrite put_new_eq, put_obj_alg. apply Ha.
       + rewrite put_new_eq. apply put_obj_Names; [|exact HN0]. simpl.
         intros a Hal. rewrite Ha in Hal. apply (Hit it); [apply Hl; now left|exact Hal].
-      + rewrite put_new_eq. apply put_obj_Modes; [|exact HM0].
+      + rewrite put_new_eq. apply put_obj_M; [|exact HM0].
         apply in_map. apply Hl. now left. }
   destruct (Hgen to_add st Hsub (fun j => eq_refl) HN
-              (Modes_weaken st si [] _ (incl_nil_l _) HM)) as (A & B & C).
+              (M_pending E st si _ (M_nil_any E st O si HM))) as (A & B & C).
   rewrite fold_protect_map.
-  destruct (protect_fold _ si (map fst items) A B) as (A' & B' & C').
-  split; [exact A'|]. split; [exact B'|]. intros j. rewrite C'. apply C.
+  destruct (protect_fold E _ si (map fst items) [] A B) as (A' & B' & C').
+  split; [exact A'|]. split; [now apply M_done_lminus|]. intros j. rewrite C'. apply C.
 Qed.
 
-Lemma add_link_ok st si (items : list (oid * obj)) hard :
+Lemma add_link_ok E st si (items : list (oid * obj)) hard :
   (forall it, In it items -> item_ok st si (fst it) (o_bytes (snd it))) ->
-  Names st -> Modes st si [] ->
-  Names (add_link st si items hard) /\ Modes (add_link st si items hard) si [] /\
+  Names st -> M E st O [] [] ->
+  Names (add_link st si items hard) /\ M (lminus E si (map fst items)) (add_link st si items hard) O [] [] /\
   forall j, alg_at (add_link st si items hard) j = alg_at st j.
 Proof.
   intros Hit HN HM. unfold add_link.
@@ -306,7 +445,7 @@ Proof.
   clearbody to_add.
   assert (Hgen : forall l st0, incl l items ->
             (forall j, alg_at st0 j = alg_at st j) ->
-            Names st0 -> Modes st0 si (map fst items) ->
+            Names st0 -> M E st0 si [] (map fst items) ->
             let st1 := fold_left (fun s it =>
                if hard then
                  match o_bytes (snd it) with
@@ -314,7 +453,7 @@ Proof.
                  | _ => if store_has s si (fst it) then s else put_link s si (fst it) (snd it)
                  end
                else put_new s si (fst it) (o_bytes (snd it))) l st0 in
-            Names st1 /\ Modes st1 si (map fst items) /\ forall j, alg_at st1 j = alg_at st j).
+            Names st1 /\ M E st1 si [] (map fst items) /\ forall j, alg_at st1 j = alg_at st j).
   { induction l as [|it r IH]; intros st0 Hl Ha HN0 HM0; simpl.
     - auto.
     - assert (Hin : In it items) by (apply Hl; now left).
@@ -327,50 +466,70 @@ Proof.
         * apply IH; [exact Hr| | |].
           -- intros j. rewrite put_new_eq, put_obj_alg. apply Ha.
           -- rewrite put_new_eq. apply put_obj_Names; [|exact HN0]. simpl. exact Hok.
-          -- rewrite put_new_eq. now apply put_obj_Modes.
+          -- rewrite put_new_eq. now apply put_obj_M.
         * destruct (store_has st0 si (fst it)).
           -- now apply IH.
           -- apply IH; [exact Hr| | |].
              ++ intros j. rewrite put_link_eq, put_obj_alg. apply Ha.
              ++ rewrite put_link_eq. apply put_obj_Names; [|exact HN0]. rewrite Eb. exact Hok.
-             ++ rewrite put_link_eq. now apply put_obj_Modes.
+             ++ rewrite put_link_eq. now apply put_obj_M.
       + apply IH; [exact Hr| | |].
         * intros j. rewrite put_new_eq, put_obj_alg. apply Ha.
         * rewrite put_new_eq. apply put_obj_Names; [|exact HN0]. simpl. exact Hok.
-        * rewrite put_new_eq. now apply put_obj_Modes. }
+        * rewrite put_new_eq. now apply put_obj_M. }
   destruct (Hgen to_add st Hsub (fun j => eq_refl) HN
-              (Modes_weaken st si [] _ (incl_nil_l _) HM)) as (A & B & C).
+              (M_pending E st si _ (M_nil_any E st O si HM))) as (A & B & C).
   rewrite fold_protect_map.
-  destruct (protect_fold _ si (map fst items) A B) as (A' & B' & C').
-  split; [exact A'|]. split; [exact B'|]. intros j. rewrite C'. apply C.
+  destruct (protect_fold E _ si (map fst items) [] A B) as (A' & B' & C').
+  split; [exact A'|]. split; [now apply M_done_lminus|]. intros j. rewrite C'. apply C.
 Qed.
 
 (* the three facts every operation preserves, bundled *)
-Definition Good (st0 st : state) : Prop :=
-  Names st /\ Modes st O [] /\ forall j, alg_at st j = alg_at st0 j.
+Definition Good (E : lset) (st0 st : state) : Prop :=
+  Names st /\ M E st O [] [] /\ forall j, alg_at st j = alg_at st0 j.
 
-Lemma Good_refl st : Names st -> Modes st O [] -> Good st st.
+Lemma Good_refl E st : Names st -> M E st O [] [] -> Good E st st.
 Proof. intros; repeat split; auto. Qed.
 
-Lemma add_copy_Good st0 st si items ce :
+Lemma Good_weaken (E E' : lset) st0 st : (forall j k, E j k -> E' j k) -> Good E st0 st -> Good E' st0 st.
+Proof. intros Hi (A & B & C). split; [exact A|]. split; [now apply M_weaken with E|exact C]. Qed.
+
+Lemma lminus_sub E si ks j k : lminus E si ks j k -> E j k.
+Proof. now intros [A _]. Qed.
+
+(* precise: the added ids leave the leftovers *)
+Lemma add_copy_Good_minus E st0 st si items ce :
   (forall it, In it items -> item_ok st0 si (fst it) (snd it)) ->
-  Good st0 st -> Good st0 (add_copy st si items ce).
+  Good E st0 st -> Good (lminus E si (map fst items)) st0 (add_copy st si items ce).
 Proof.
   intros Hit (HN & HM & HA).
-  destruct (add_copy_ok st si items ce) as (A & B & C); auto.
+  destruct (add_copy_ok E st si items ce) as (A & B & C); auto.
   - intros it Hin a Hal. rewrite HA in Hal. now apply (Hit it).
-  - now apply Modes_nil_any with O.
-  - split; [exact A|]. split; [now apply Modes_nil_any with si|]. intros j. rewrite C. apply HA.
+  - split; [exact A|]. split; [exact B|]. intros j. rewrite C. apply HA.
 Qed.
 
-Lemma add_copy_fold_Good st0 st si (l : list (oid * list N)) :
+Lemma add_copy_Good E st0 st si items ce :
+  (forall it, In it items -> item_ok st0 si (fst it) (snd it)) ->
+  Good E st0 st -> Good E st0 (add_copy st si items ce).
+Proof.
+  intros Hit HG. apply (Good_weaken (lminus E si (map fst items)) E); [intros j k; apply lminus_sub|].
+  now apply add_copy_Good_minus.
+Qed.
+
+Lemma add_copy_fold_Good E st0 st si (l : list (oid * list N)) :
   (forall it, In it l -> item_ok st0 si (fst it) (snd it)) ->
-  Good st0 st -> Good st0 (fold_left (fun s it => add_copy s si [it] false) l st).
+  Good E st0 st -> Good E st0 (fold_left (fun s it => add_copy s si [it] false) l st).
 Proof.
   revert st. induction l as [|it r IH]; intros st Hit HG; simpl; [exact HG|].
   apply IH.
   - intros x Hx. apply Hit. now right.
   - apply add_copy_Good; [|exact HG]. intros x [<-|[]]. apply Hit. now left.
+Qed.
+
+Lemma check_all_Good E st0 st si ks : Good E st0 st -> Good E st0 (check_all H st si ks).
+Proof.
+  intros (A & B & C). destruct (check_all_ok E st si ks A B) as (A' & B' & C').
+  split; [exact A'|]. split; [exact B'|]. intros j. rewrite C'. apply C.
 Qed.
 
 (* ------------------------------------------------------------------ transfer *)
@@ -381,31 +540,33 @@ Proof.
   destruct Hk as [[= <- <-]|[]]. exact E.
 Qed.
 
-Lemma transfer_plan_src a src st dst ids sh fs ds :
-  transfer_plan a src st dst ids sh = inl (fs, ds) ->
+Lemma transfer_plan_src a src st dst all fs ds :
+  transfer_plan a src st dst all = inl (fs, ds) ->
   forall it, In it (fs ++ ds) -> src (fst it) = Some (snd it).
 Proof.
   unfold transfer_plan. intros Hp it Hin.
-  destruct (if sh then inl [] else load_all a src (filter is_dir_oid (dedup ids))) as [expanded|c]; [|discriminate].
-  destruct (existsb _ expanded); [discriminate|].
-  destruct (filter (fun k => negb (store_has st dst k)) _) as [|m ms].
-  - injection Hp as <- <-. destruct Hin.
-  - destruct (load_all a src _) as [loaded|c]; [|discriminate].
-    injection Hp as <- <-. destruct it as [k b]. simpl.
-    apply in_app_or in Hin as [Hin|Hin]; eapply items_of_src; exact Hin.
+  destruct (load_all a src _) as [loaded|c]; [|discriminate].
+  injection Hp as <- <-. destruct it as [k b]. simpl.
+  apply in_app_or in Hin as [Hin|Hin]; eapply items_of_src; exact Hin.
 Qed.
 
-Lemma transfer_core_Good a src st0 st dst ids sh :
-  (forall k b, src k = Some b -> item_ok st0 dst k b) ->
-  Good st0 st -> Good st0 (fst (transfer_core a src st dst ids sh)).
+Lemma transfer_core_Good E a srcf sidx st0 st dst ids sh :
+  (forall st', Good E st0 st' -> forall k b, srcf st' k = Some b -> item_ok st0 dst k b) ->
+  Good E st0 st -> Good E st0 (fst (transfer_core H a srcf sidx st dst ids sh)).
 Proof.
   intros Hsrc HG. unfold transfer_core.
-  destruct (transfer_plan a src st dst ids sh) as [[fs ds]|c] eqn:Ep; simpl; [|exact HG].
-  pose proof (transfer_plan_src _ _ _ _ _ _ _ _ Ep) as Hs.
+  destruct (expand a (srcf st) ids sh) as [all|c]; simpl; [|exact HG].
+  pose proof (check_all_Good E st0 st dst all HG) as HG1.
+  destruct (filter _ all) as [|m ms]; simpl; [exact HG1|].
+  set (st2 := match sidx with Some i => check_all H (check_all H st dst all) i all | None => check_all H st dst all end).
+  assert (HG2 : Good E st0 st2).
+  { subst st2. destruct sidx; [now apply check_all_Good|exact HG1]. }
+  destruct (transfer_plan a (srcf st2) st2 dst all) as [[fs ds]|c] eqn:Ep; simpl; [|exact HG2].
+  pose proof (transfer_plan_src _ _ _ _ _ _ _ Ep) as Hs.
   unfold apply_plan. simpl. apply add_copy_fold_Good.
-  - intros it Hin. apply Hsrc. apply Hs. apply in_or_app. now right.
-  - destruct fs as [|f fr]; [exact HG|]. apply add_copy_Good; [|exact HG].
-    intros it Hin. apply Hsrc. apply Hs. apply in_or_app. now left.
+  - intros it Hin. apply (Hsrc st2 HG2). apply Hs. apply in_or_app. now right.
+  - destruct fs as [|f fr]; [exact HG2|]. apply add_copy_Good; [|exact HG2].
+    intros it Hin. apply (Hsrc st2 HG2). apply Hs. apply in_or_app. now left.
 Qed.
 
 (* ------------------------------------------------------------------ staging *)
@@ -425,16 +586,16 @@ Proof. unfold refs_lookup. intros Hl. apply alookup_In in Hl. now apply in_rev. 
 Lemma alg_at_get st si s : get_store st si = Some s -> alg_at st si = Some (s_alg s).
 Proof. unfold alg_at. rewrite get_store_nth. now intros ->. Qed.
 
-Lemma stage_Good st si w :
+Lemma stage_Good E st si w :
   (match w with WDir _ => forall s, get_store st si = Some s -> s_alg s <> Sha256 | WFile _ => True end) ->
-  Names st -> Modes st O [] -> Good st (fst (stage H st si w)).
+  Names st -> M E st O [] [] -> Good E st (fst (stage H st si w)).
 Proof.
   intros Hw HN HM. unfold stage.
   destruct (get_store st si) as [s|] eqn:Es; simpl; [|now apply Good_refl].
   pose proof (alg_at_get _ _ _ Es) as Hal.
   destruct w as [b|files].
   - apply transfer_core_Good; [|now apply Good_refl].
-    intros k b0 Hl. apply refs_lookup_In in Hl. destruct Hl as [[= <- <-]|[]].
+    intros _ _ k b0 Hl. apply refs_lookup_In in Hl. destruct Hl as [[= <- <-]|[]].
     intros a Ha. rewrite Hal in Ha. injection Ha as <-. apply named_ok_file.
   - specialize (Hw s eq_refl).
     set (hashed := map (fun kb => (fst kb, H (s_alg s) (snd kb), snd kb)) files).
@@ -444,8 +605,8 @@ Proof.
     assert (Hd : item_ok st si d listing).
     { intros a Ha. rewrite Hal in Ha. injection Ha as <-. subst d listing.
       unfold dir_oid_of, listing_of. now apply named_ok_dir. }
-    assert (Hrefs : forall k b, refs_lookup refs k = Some b -> item_ok st si k b).
-    { intros k b Hl. apply refs_lookup_In in Hl. subst refs.
+    assert (Hrefs : forall st', Good E st st' -> forall k b, refs_lookup refs k = Some b -> item_ok st si k b).
+    { intros _ _ k b Hl. apply refs_lookup_In in Hl. subst refs.
       apply in_app_or in Hl as [Hl|[[= <- <-]|[]]]; [|exact Hd].
       apply in_map_iff in Hl as (x & [= <- <-] & Hx). subst hashed.
       apply in_map_iff in Hx as (kb & <- & _). simpl.
@@ -457,51 +618,69 @@ Proof.
     + congruence.
 Qed.
 
-Lemma stage_upload_Good st si w :
+Lemma stage_upload_Good E st si w :
   (match w with WDir _ => forall s, get_store st si = Some s -> s_alg s <> Sha256 | WFile _ => True end) ->
-  Names st -> Modes st O [] -> Good st (fst (stage_upload H st si w)).
+  Names st -> M E st O [] [] -> Good E st (fst (stage_upload H st si w)).
 Proof.
   intros Hw HN HM. unfold stage_upload.
   destruct (get_store st si) as [s|] eqn:Es; simpl; [|now apply Good_refl].
-  assert (Hs : Good st (fst (stage H st si w))) by (apply stage_Good; [rewrite Es|..]; assumption).
+  assert (Hs : Good E st (fst (stage H st si w))) by (apply stage_Good; [rewrite Es|..]; assumption).
   destruct (s_alg s); [exact Hs| |]; (destruct w as [b|[|f r]]; simpl; [now apply Good_refl|exact Hs|now apply Good_refl]).
 Qed.
 
 (* ------------------------------------------------------------------ the other operations *)
-Lemma add_ext_Good st si b k :
+Lemma add_ext_Good E st si b k :
   (forall s, get_store st si = Some s -> named_ok (s_alg s) k b) ->
-  Names st -> Modes st O [] -> Good st (fst (add_ext st si b k)).
+  Names st -> M E st O [] [] -> Good (lminus E si [k]) st (fst (add_ext st si b k)).
 Proof.
   intros Hw HN HM. unfold add_ext.
-  destruct (get_store st si) as [s|] eqn:Es; simpl; [|now apply Good_refl].
-  apply add_copy_Good; [|now apply Good_refl]. intros it [<-|[]]. simpl.
+  destruct (get_store st si) as [s|] eqn:Es; simpl.
+  2:{ split; [exact HN|]. split; [|reflexivity].
+      intros j s' k' o Hs Ho Hc. destruct (HM j s' k' o Hs Ho Hc) as [?|[[A B]|[_ []]]]; [now left|].
+      right. left. split; [|intros [_ []]]. split; [exact A|]. intros [-> _].
+      rewrite get_store_nth in Es. congruence. }
+  apply (add_copy_Good_minus E st st si [(k, b)] true); [|now apply Good_refl].
+  intros it [<-|[]]. simpl.
   intros a Ha. rewrite (alg_at_get _ _ _ Es) in Ha. injection Ha as <-. now apply Hw.
 Qed.
 
-Lemma transfer_op_Good st src dst ids sh :
+Lemma store_bytes_named st0 st E src dst k b :
+  (forall s d, get_store st0 src = Some s -> get_store st0 dst = Some d -> s_alg s = s_alg d) ->
+  Good E st0 st -> store_bytes st src k = Some b -> item_ok st0 dst k b.
+Proof.
+  intros Hw (HN & _ & HA) Hl a Ha. unfold store_bytes in Hl.
+  destruct (get_store st src) as [s|] eqn:Es; [|discriminate].
+  destruct (alookup k (s_objs s)) as [o|] eqn:Eo; [|discriminate]. injection Hl as <-.
+  pose proof (HN src s k o Es Eo) as Hn.
+  pose proof (HA src) as Hsrc. unfold alg_at in Hsrc, Ha. rewrite get_store_nth in Es. rewrite Es in Hsrc. simpl in Hsrc.
+  destruct (nth_error (st_stores st0) src) as [s0|] eqn:Es0; [|discriminate].
+  destruct (nth_error (st_stores st0) dst) as [d0|] eqn:Ed0; [|discriminate].
+  simpl in Hsrc, Ha. injection Hsrc as Hsrc. injection Ha as <-.
+  rewrite <- (Hw s0 d0 Es0 Ed0), <- Hsrc. exact Hn.
+Qed.
+
+Lemma transfer_op_Good E st src dst ids sh :
   (forall s d, get_store st src = Some s -> get_store st dst = Some d -> s_alg s = s_alg d) ->
-  Names st -> Modes st O [] -> Good st (fst (transfer_op st src dst ids sh)).
+  Names st -> M E st O [] [] -> Good E st (fst (transfer_op H st src dst ids sh)).
 Proof.
   intros Hw HN HM. unfold transfer_op.
   destruct (get_store st src) as [s|] eqn:Es; [|now apply Good_refl].
   destruct (get_store st dst) as [d|] eqn:Ed; [|now apply Good_refl].
   destruct (Nat.eqb src dst); [now apply Good_refl|].
   apply transfer_core_Good; [|now apply Good_refl].
-  intros k b Hl a Ha. rewrite (alg_at_get _ _ _ Ed) in Ha. injection Ha as <-.
-  rewrite <- (Hw s d eq_refl eq_refl).
-  destruct (alookup k (s_objs s)) as [o|] eqn:Eo; [|discriminate]. injection Hl as <-.
-  apply (HN src s k o Es Eo).
+  intros st' HG k b Hl. eapply store_bytes_named; eauto.
+  intros s0 d0 Hs0 Hd0. rewrite Es in Hs0. rewrite Ed in Hd0. now apply Hw.
 Qed.
 
-Lemma save_index_Good st si dirs files :
+Lemma save_index_Good E st si dirs files :
   (forall s, get_store st si = Some s ->
      (forall f, In f files -> snd f = H (s_alg s) (snd (fst f))) /\ (dirs <> [] -> s_alg s <> Sha256)) ->
-  Names st -> Modes st O [] -> Good st (fst (save_index H st si dirs files)).
+  Names st -> M E st O [] [] -> Good E st (fst (save_index H st si dirs files)).
 Proof.
   intros Hw HN HM. unfold save_index.
   destruct (get_store st si) as [s|] eqn:Es; simpl; [|now apply Good_refl].
   destruct (Hw s eq_refl) as [Hf Hd]. pose proof (alg_at_get _ _ _ Es) as Hal.
-  assert (H1 : Good st (match files with
+  assert (H1 : Good E st (match files with
                         | [] => st
                         | _ => add_copy st si (map (fun f => (snd f, snd (fst f))) files) true
                         end)).
@@ -524,14 +703,14 @@ Proof.
     unfold dir_oid_of, dir_listing, listing_of. apply named_ok_dir. apply (Hall d). now left.
 Qed.
 
-Lemma migrate_op_Good st src dst order hard :
-  Names st -> Modes st O [] -> Good st (fst (migrate_op H st src dst order hard)).
+Lemma migrate_op_Good E st src dst order hard :
+  Names st -> M E st O [] [] -> Good E st (fst (migrate_op H st src dst order hard)).
 Proof.
   intros HN HM. unfold migrate_op.
   destruct (get_store st src) as [s|] eqn:Es; [|now apply Good_refl].
   destruct (get_store st dst) as [d|] eqn:Ed; [|now apply Good_refl].
   destruct (s_objs s) as [|p ps] eqn:Eo; [now apply Good_refl|]. rewrite <- Eo. simpl.
-  destruct (add_link_ok st dst (migrate_items H (s_alg d) (s_objs s) order) hard) as (A & B & C); auto.
+  destruct (add_link_ok E st dst (migrate_items H (s_alg d) (s_objs s) order) hard) as (A & B & C); auto.
   - intros it Hin. unfold migrate_items in Hin.
     apply in_flat_map in Hin as (k & _ & Hk).
     destruct (alookup k (s_objs s)) as [o|] eqn:El; [|destruct Hk].
@@ -541,8 +720,40 @@ Proof.
     destruct (is_dir_oid k).
     + rewrite is_dir_oid_app. split; [reflexivity|apply Hn].
     + rewrite app_nil_r, H_not_dir. reflexivity.
-  - now apply Modes_nil_any with O.
-  - split; [exact A|]. split; [now apply Modes_nil_any with dst|exact C].
+  - split; [exact A|]. split; [|exact C]. eapply M_weaken; [|exact B]. intros j k. apply lminus_sub.
+Qed.
+
+(* the same directory under the other class: what is unprotected there becomes a leftover *)
+Definition unprotected (st : state) (si : nat) (k : oid) : Prop :=
+  exists s o, get_store st si = Some s /\ alookup k (s_objs s) = Some o /\ o_mode o <> mode_ro.
+
+Lemma set_cls_nth st si c j :
+  nth_error (st_stores (set_cls st si c)) j =
+  if Nat.eqb j si then option_map (fun s => {| s_cls := c; s_alg := s_alg s; s_objs := s_objs s |})
+                                  (nth_error (st_stores st) j)
+  else nth_error (st_stores st) j.
+Proof. unfold set_cls. simpl. apply nth_error_upd_nth. Qed.
+
+Lemma reopen_Good E st si c :
+  Names st -> M E st O [] [] ->
+  Good (fun j k => E j k \/ (j = si /\ c = Local /\ unprotected st si k)) st (set_cls st si c).
+Proof.
+  intros HN HM. split; [|split].
+  - intros j s k o Hs Ho. rewrite set_cls_nth in Hs. destruct (Nat.eqb j si).
+    + destruct (nth_error (st_stores st) j) as [s0|] eqn:E0; [|discriminate].
+      simpl in Hs. injection Hs as <-. simpl in *. apply (HN j s0 k o E0 Ho).
+    + apply (HN j s k o Hs Ho).
+  - intros j s k o Hs Ho Hc. rewrite set_cls_nth in Hs. destruct (Nat.eqb j si) eqn:Ej.
+    + apply Nat.eqb_eq in Ej. subst j.
+      destruct (nth_error (st_stores st) si) as [s0|] eqn:E0; [|discriminate].
+      simpl in Hs. injection Hs as <-. simpl in *. subst c.
+      destruct (N.eq_dec (o_mode o) mode_ro) as [?|Hne]; [now left|].
+      right. left. split; [|intros [_ []]]. right. split; [reflexivity|]. split; [reflexivity|].
+      exists s0, o. rewrite get_store_nth. auto.
+    + destruct (HM j s k o Hs Ho Hc) as [?|[[A B]|[_ []]]]; [now left|].
+      right. left. split; [now left|exact B].
+  - intros j. unfold alg_at. rewrite set_cls_nth. destruct (Nat.eqb j si); [|reflexivity].
+    destruct (nth_error (st_stores st) j); reflexivity.
 Qed.
 
 (* ------------------------------------------------------------------ C01 *)
@@ -562,11 +773,22 @@ Definition WfOp (st : state) (o : op) : Prop :=
       forall s, get_store st si = Some s ->
         (forall f, In f files -> snd f = H (s_alg s) (snd (fst f))) /\ (dirs <> [] -> s_alg s <> Sha256)
   | OMigrate _ _ _ _ => True
+  | OReopen _ _ => True
   end.
 
-Lemma step_Good st o : Inv st -> WfOp st o -> Good st (step H st o).
+(* the leftovers after an operation: reopening a directory under the local class adds what is
+   unprotected in it; an external add removes the id it was asked for (present or copied); the
+   other operations never add any (they remove the ids they add or cover - not stated here) *)
+Definition leftover_after (st : state) (o : op) (E : lset) : lset :=
+  match o with
+  | OReopen si c => fun j k => E j k \/ (j = si /\ c = Local /\ unprotected st si k)
+  | OAdd si _ k => lminus E si [k]
+  | _ => E
+  end.
+
+Lemma step_Good E st o : InvE E st -> WfOp st o -> Good (leftover_after st o E) st (step H st o).
 Proof.
-  intros HI Hw. apply Inv_split in HI as [HN HM]. unfold step.
+  intros HI Hw. apply InvE_split in HI as [HN HM]. unfold step.
   destruct o; simpl in *.
   - now apply stage_Good.
   - now apply stage_upload_Good.
@@ -574,6 +796,7 @@ Proof.
   - now apply transfer_op_Good.
   - now apply save_index_Good.
   - now apply migrate_op_Good.
+  - now apply reopen_Good.
 Qed.
 
 Theorem C01_init cfg : Inv (init_state cfg).
@@ -582,9 +805,35 @@ Proof.
   destruct (nth_error cfg j); [|discriminate]. injection Hs as <-. discriminate.
 Qed.
 
-Theorem C01_step st o : Inv st -> WfOp st o -> Inv (step H st o).
+(* one step, with leftovers *)
+Theorem C01_step_leftover E st o :
+  InvE E st -> WfOp st o -> InvE (leftover_after st o E) (step H st o).
 Proof.
-  intros HI Hw. destruct (step_Good st o HI Hw) as (A & B & _). apply Inv_split. now split.
+  intros HI Hw. destruct (step_Good E st o HI Hw) as (A & B & _). apply InvE_split. now split.
+Qed.
+
+(* an operation that does not reopen a directory under the local class *)
+Definition keeps_class (o : op) : Prop := match o with OReopen _ Local => False | _ => True end.
+
+Theorem C01_step st o : Inv st -> WfOp st o -> keeps_class o -> Inv (step H st o).
+Proof.
+  intros HI Hw Hk. apply Inv_InvE. apply Inv_InvE in HI.
+  eapply InvE_weaken; [|apply (C01_step_leftover lempty st o HI Hw)].
+  intros j k. destruct o; simpl; try tauto.
+  - intros [A _]. exact A.
+  - destruct c; [contradiction|]. intros [A|(_ & Hc & _)]; [exact A|discriminate].
+Qed.
+
+(* "add protects every oid it is asked for, copied or already present": after a truthful external
+   add of id k to a local-class store the object under k is read-only - whatever the leftovers *)
+Theorem C01_add_covers E st si b k s o :
+  InvE E st -> WfOp st (OAdd si b k) ->
+  nth_error (st_stores (step H st (OAdd si b k))) si = Some s -> s_cls s = Local ->
+  alookup k (s_objs s) = Some o -> o_mode o = mode_ro.
+Proof.
+  intros HI Hw Hs Hc Ho.
+  destruct (C01_step_leftover E st _ HI Hw si s k o Hs Ho) as [_ Hm].
+  destruct (Hm Hc) as [?|[_ Hn]]; [assumption|]. exfalso. apply Hn. split; [reflexivity|now left].
 Qed.
 
 (* the boolean checker the correspondence run evaluates on every generated operation is sound *)
@@ -607,7 +856,7 @@ Qed.
 
 Lemma wf_op_b_sound st o : wf_op_b H st o = true -> WfOp st o.
 Proof.
-  destruct o as [si w|si w|si b k|src dst ids sh|si dirs files|src dst order hard]; simpl.
+  destruct o as [si w|si w|si b k|src dst ids sh|si dirs files|src dst order hard|si c]; simpl.
   - destruct w; [trivial|]. intros E s Hs. rewrite Hs in E.
     intros Ha. rewrite Ha in E. discriminate.
   - destruct w; [trivial|]. intros E s Hs. rewrite Hs in E.
@@ -617,6 +866,7 @@ Proof.
   - intros E s Hs. rewrite Hs in E. apply andb_true_iff in E as [E1 E2]. split.
     + intros f Hin. rewrite forallb_forall in E1. specialize (E1 f Hin). now apply list_N_eqb_spec.
     + intros Hd Ha. destruct dirs; [now apply Hd|]. rewrite Ha in E2. discriminate.
+  - trivial.
   - trivial.
 Qed.
 
@@ -637,8 +887,8 @@ Proof.
 Qed.
 
 (* the algorithm (and position) of every store is fixed for the whole history *)
-Theorem C01_step_alg st o j : Inv st -> WfOp st o -> alg_at (step H st o) j = alg_at st j.
-Proof. intros HI Hw. apply (step_Good st o HI Hw). Qed.
+Theorem C01_step_alg E st o j : InvE E st -> WfOp st o -> alg_at (step H st o) j = alg_at st j.
+Proof. intros HI Hw. apply (step_Good E st o HI Hw). Qed.
 
 (* a history all of whose operations are well-formed in the state they are applied to *)
 Fixpoint WfHist (st : state) (ops : list op) : Prop :=
@@ -647,10 +897,57 @@ Fixpoint WfHist (st : state) (ops : list op) : Prop :=
   | o :: r => WfOp st o /\ WfHist (step H st o) r
   end.
 
-Theorem C01_history_from st ops : Inv st -> WfHist st ops -> Inv (fold_left (step H) ops st).
+Fixpoint KeepsClass (ops : list op) : Prop :=
+  match ops with [] => True | o :: r => keeps_class o /\ KeepsClass r end.
+
+(* the leftovers a history accumulates *)
+Fixpoint leftover_hist (st : state) (ops : list op) (E : lset) : lset :=
+  match ops with
+  | [] => E
+  | o :: r => leftover_hist (step H st o) r (leftover_after st o E)
+  end.
+
+Theorem C01_history_leftover_from E st ops :
+  InvE E st -> WfHist st ops -> InvE (leftover_hist st ops E) (fold_left (step H) ops st).
 Proof.
-  revert st. induction ops as [|o r IH]; intros st HI Hw; simpl; [exact HI|].
-  destruct Hw as [Ho Hr]. apply IH; [now apply C01_step|exact Hr].
+  revert E st. induction ops as [|o r IH]; intros E st HI Hw; simpl; [exact HI|].
+  destruct Hw as [Ho Hr]. apply IH; [now apply C01_step_leftover|exact Hr].
+Qed.
+
+Theorem C01_history_from st ops :
+  Inv st -> WfHist st ops -> KeepsClass ops -> Inv (fold_left (step H) ops st).
+Proof.
+  revert st. induction ops as [|o r IH]; intros st HI Hw Hk; simpl; [exact HI|].
+  destruct Hw as [Ho Hr]. destruct Hk as [Hk1 Hk2]. apply IH; [now apply C01_step|exact Hr|exact Hk2].
+Qed.
+
+Lemma WfHist_firstn st ops n : WfHist st ops -> WfHist st (firstn n ops).
+Proof.
+  revert st n. induction ops as [|o r IH]; intros st n Hw; destruct n; simpl; auto.
+  destruct Hw as [Ho Hr]. split; [exact Ho|]. now apply IH.
+Qed.
+Lemma KeepsClass_firstn ops n : KeepsClass ops -> KeepsClass (firstn n ops).
+Proof.
+  revert n. induction ops as [|o r IH]; intros n Hk; destruct n; simpl; auto.
+  destruct Hk as [A B]. split; [exact A|]. now apply IH.
+Qed.
+
+(* checked "after every step": every prefix of the history ends in a state satisfying the
+   invariant up to the leftovers accumulated so far ... *)
+Theorem C01_history_leftover cfg ops n :
+  WfHist (init_state cfg) ops ->
+  InvE (leftover_hist (init_state cfg) (firstn n ops) lempty)
+       (fold_left (step H) (firstn n ops) (init_state cfg)).
+Proof.
+  intros Hw. apply C01_history_leftover_from; [apply Inv_InvE, C01_init|now apply WfHist_firstn].
+Qed.
+
+(* ... and, when no directory is reopened under the local class, the invariant itself *)
+Theorem C01_history cfg ops n :
+  WfHist (init_state cfg) ops -> KeepsClass ops ->
+  Inv (fold_left (step H) (firstn n ops) (init_state cfg)).
+Proof.
+  intros Hw Hk. apply C01_history_from; [apply C01_init|now apply WfHist_firstn|now apply KeepsClass_firstn].
 Qed.
 
 Lemma wf_hist_b_sound st ops : wf_hist_b H st ops = true -> WfHist st ops.
@@ -659,19 +956,23 @@ Proof.
   apply andb_true_iff in E as [E1 E2]. split; [now apply wf_op_b_sound|now apply IH].
 Qed.
 
-(* checked "after every step": every prefix of the history ends in a state satisfying Inv *)
-Theorem C01_history cfg ops n :
-  WfHist (init_state cfg) ops -> Inv (fold_left (step H) (firstn n ops) (init_state cfg)).
+Definition keeps_class_b (o : op) : bool := match o with OReopen _ Local => false | _ => true end.
+Lemma keeps_class_b_sound ops : forallb keeps_class_b ops = true -> KeepsClass ops.
 Proof.
-  intros Hw. apply C01_history_from; [apply C01_init|].
-  revert n Hw. generalize (init_state cfg).
-  induction ops as [|o r IH]; intros st n Hw; destruct n; simpl; auto.
-  destruct Hw as [Ho Hr]. split; [exact Ho|]. now apply IH.
+  induction ops as [|o r IH]; simpl; [trivial|]. intros E. apply andb_true_iff in E as [E1 E2].
+  split; [|now apply IH]. destruct o; simpl in *; trivial. destruct c; [discriminate|trivial].
 Qed.
 
-(* the same with the decidable side condition the harness has Coq evaluate on its histories *)
+(* the same with the decidable side conditions the harness has Coq evaluate on its histories *)
 Theorem C01_history_checked cfg ops n :
-  wf_hist_b H (init_state cfg) ops = true -> Inv (fold_left (step H) (firstn n ops) (init_state cfg)).
-Proof. intros E. apply C01_history. now apply wf_hist_b_sound. Qed.
+  wf_hist_b H (init_state cfg) ops = true -> forallb keeps_class_b ops = true ->
+  Inv (fold_left (step H) (firstn n ops) (init_state cfg)).
+Proof. intros E1 E2. apply C01_history; [now apply wf_hist_b_sound|now apply keeps_class_b_sound]. Qed.
+
+Theorem C01_history_leftover_checked cfg ops n :
+  wf_hist_b H (init_state cfg) ops = true ->
+  InvE (leftover_hist (init_state cfg) (firstn n ops) lempty)
+       (fold_left (step H) (firstn n ops) (init_state cfg)).
+Proof. intros E1. apply C01_history_leftover. now apply wf_hist_b_sound. Qed.
 
 End Proofs.
